@@ -138,6 +138,17 @@ def mutators(nix):
         if kind != "Section":
             add(kind, "metadata", lambda T, key=key: setattr(T[key], "metadata", T["sec1"] if key != "df" else T["sec"]))
             add(kind, "metadata.deleter", lambda T, key=key: delattr(T[key], "metadata"))
+    # ---- clearing an optional attribute the entity does not have: nothing to remove, but the entity's update time moves
+    for key, kind in (("b", "Block"), ("d1", "DataArray"), ("df", "DataFrame"), ("tag2", "Tag"), ("mtag_raw", "MultiTag"),
+                      ("grp_empty", "Group"), ("src2", "Source"), ("sec1", "Section")):
+        add(kind, "definition", lambda T, key=key: setattr(T[key], "definition", None), label="%s.definition=None(absent)" % kind)
+    add("DataArray", "unit", lambda T: setattr(T["d1"], "unit", None), label="DataArray.unit=None(absent)")
+    add("DataArray", "label", lambda T: setattr(T["d1"], "label", None), label="DataArray.label=None(absent)")
+    add("DataArray", "polynom_coefficients", lambda T: setattr(T["d1"], "polynom_coefficients", None), label="DataArray.polynom_coefficients=None(absent)")
+    add("Tag", "extent", lambda T: setattr(T["tag2"], "extent", None), label="Tag.extent=None(absent)")
+    add("Tag", "units", lambda T: setattr(T["tag2"], "units", []), label="Tag.units=[](absent)")
+    add("MultiTag", "units", lambda T: setattr(T["mtag_raw"], "units", None), label="MultiTag.units=None(absent)")
+    add("Section", "repository", lambda T: setattr(T["sec1"], "repository", None), label="Section.repository=None(absent)")
     # ---- Block
     add("Block", "create_data_array", lambda T: T["b"].create_data_array("new", "t", data=[1.0, 2.0]))
     add("Block", "create_data_frame", lambda T: T["b"].create_data_frame("newdf", "t", col_dict=OrderedDict([("a", int)])))
